@@ -7,6 +7,7 @@ import (
 	"sort"
 	"strconv"
 	"strings"
+	"time"
 
 	"verif/wire"
 )
@@ -215,6 +216,23 @@ func genTimeoutMS(rng *rand.Rand) (int64, string) {
 	default:
 		return 5000 + rng.Int63n(86400000-5000+1), "hours"
 	}
+}
+
+// genNoDeadline returns a non-positive timeout: SetTimeout keeps it on the
+// wire (whole milliseconds; 0 = "no deadline"), and the receiver must observe
+// exactly what ctx.Timeout() reports on the caller's side.  Only used where
+// such a call can complete: adapter (pipe, tcp) legs and pub/sub - the NATS
+// and HTTP clients give up at once on a timeout <= 0.
+func genNoDeadline(rng *rand.Rand) (time.Duration, string) {
+	switch rng.Intn(5) {
+	case 0, 1:
+		return 0, "zero"
+	case 2:
+		return -500 * time.Microsecond, "zero" // truncates to 0 ms
+	case 3:
+		return -time.Millisecond, "negative"
+	}
+	return -5 * time.Second, "negative"
 }
 
 func genCID(rng *rand.Rand, token string) (string, string) {
